@@ -505,6 +505,13 @@ struct Dumper
 
     void templ(template_t& t, int ti)
     {
+        if (o.mask_decl_templ == ti) {
+            // a faulted local declaration block: only the declarations that precede the fault are compared; the
+            // template's own header (instantiated, init, ...) is filled in by blocks that follow
+            os << "\ntemplate " << t.uid.get_name();
+            decls(t, false, 0);
+            return;
+        }
         instance(t, "template");
         os << " isTA=" << t.is_TA << " instantiated=" << t.is_instantiated << " dynamic=" << t.dynamic
            << " defined=" << t.is_defined << " type=" << esc(t.type) << " mode=" << esc(t.mode)
@@ -854,12 +861,33 @@ std::string summarize_document(Document& doc)
         }
         for (auto& b : t.branchpoints)
             os << "  bp " << b.uid.get_name() << "\n";
-        os << "  init " << (t.init == symbol_t{} ? std::string{"<none>"} : t.init.get_name()) << "\n";
+        // endpoints are identified by object, not by name: two templates may use the same location names, and an
+        // edge attached to the namesake in another template must not pass as faithful
+        auto own_loc = [&](const location_t* l) -> std::string {
+            for (auto& x : t.locations)
+                if (&x == l)
+                    return x.uid.get_name();
+            return "<foreign location " + l->uid.get_name() + ">";
+        };
+        auto own_bp = [&](const branchpoint_t* b) -> std::string {
+            for (auto& x : t.branchpoints)
+                if (&x == b)
+                    return x.uid.get_name();
+            return "<foreign branchpoint " + b->uid.get_name() + ">";
+        };
+        os << "  init ";
+        if (t.init == symbol_t{})
+            os << "<none>";
+        else if (t.init.get_data() && t.init.get_type().is_location())
+            os << own_loc(static_cast<const location_t*>(t.init.get_data()));
+        else
+            os << t.init.get_name();
+        os << "\n";
         for (auto& e : t.edges) {
             std::set<int> sel;
             collect_tags(e.select, sel);
-            os << "  edge " << (e.src ? e.src->uid.get_name() : (e.srcb ? e.srcb->uid.get_name() : "<none>")) << " -> "
-               << (e.dst ? e.dst->uid.get_name() : (e.dstb ? e.dstb->uid.get_name() : "<none>"))
+            os << "  edge " << (e.src ? own_loc(e.src) : (e.srcb ? own_bp(e.srcb) : std::string{"<none>"})) << " -> "
+               << (e.dst ? own_loc(e.dst) : (e.dstb ? own_bp(e.dstb) : std::string{"<none>"}))
                << " ctrl=" << e.control << " select=";
             if (!(e.select == frame_t{}))
                 for (uint32_t i = 0; i < e.select.get_size(); ++i)
